@@ -86,6 +86,46 @@ pub fn rename(plan: &Plan, rng: &mut Rng) -> Plan {
     })
 }
 
+/// Every unnamed system gets a fresh unique name (nobody can depend on it, so only names change).
+pub fn name_unnamed(plan: &Plan) -> (Plan, usize) {
+    let mut n = 0usize;
+    let p = map_plan(plan, &mut |it| match it {
+        Item::Sys(s) if s.name.is_empty() => {
+            n += 1;
+            s.name = format!("anon {}", s.uid);
+        }
+        Item::Batch(b) if b.name.is_empty() => {
+            n += 1;
+            b.name = format!("anon-{}", b.uid);
+        }
+        _ => {}
+    });
+    (p, n)
+}
+
+/// Systems that nobody names as a dependency lose their name.
+pub fn unname_unreferenced(plan: &Plan) -> (Plan, usize) {
+    let mut referenced = std::collections::HashSet::new();
+    plan.walk(&mut |it, _| match it {
+        Item::Sys(s) => referenced.extend(s.deps.iter().cloned()),
+        Item::Batch(b) => referenced.extend(b.deps.iter().cloned()),
+        _ => {}
+    });
+    let mut n = 0usize;
+    let p = map_plan(plan, &mut |it| match it {
+        Item::Sys(s) if !s.name.is_empty() && !referenced.contains(&s.name) => {
+            n += 1;
+            s.name.clear();
+        }
+        Item::Batch(b) if !b.name.is_empty() && !referenced.contains(&b.name) => {
+            n += 1;
+            b.name.clear();
+        }
+        _ => {}
+    });
+    (p, n)
+}
+
 pub fn relabel(plan: &Plan, rng: &mut Rng) -> (Plan, usize) {
     let fixed = fixed_slots(plan);
     let free: Vec<Slot> = Slot::all().filter(|s| !fixed.contains(s)).collect();
@@ -216,6 +256,10 @@ fn case(rng: &mut Rng, rep: &mut Report, case_no: u64, dump: bool) {
     check("relabel", &v, moved, rep);
     let (v, ch) = permute_lists(&plan, rng);
     check("permute_lists", &v, ch, rep);
+    let (v, nn) = name_unnamed(&plan);
+    check("name_the_unnamed", &v, nn, rep);
+    let (v, un) = unname_unreferenced(&plan);
+    check("unname_the_unreferenced", &v, un, rep);
     // all three at once
     let v = rename(&plan, rng);
     let (v, m2) = relabel(&v, rng);
@@ -246,7 +290,7 @@ pub fn run(args: &Args) -> i32 {
             break;
         }
         let mut rng = Rng::new(args.case_seed(c));
-        case(&mut rng, &mut rep, c, dump);
+        guard_case(&mut rep, c, |rep| case(&mut rng, rep, c, dump));
     }
     rep.finish();
     0
